@@ -1,4 +1,5 @@
 """C01 — TCP tunnel byte-stream fidelity (the buffered relay loop and the hand-over of handshake read-ahead)."""
+import harness
 from specs import relay, replies
 
 
